@@ -30,11 +30,14 @@ MANIFEST = {
              "shift, clip, overlay/underlay, _binop over the encompassing span, apply, trim), for all series, dates, variants and values, "
              "no bound: the model refines the map abs : (serial, variant) -> value -- a write changes exactly the addressed cells (last "
              "write wins), a read returns abs, shift moves abs by exactly k, NaN-strict binary operators act pointwise on abs after "
-             "alignment including numpy's 1-vs-n variant broadcasting, clip/slices/element-wise apply/overlay/underlay (by span)/replace_where are "
-             "one equation on abs each, row statistics are the function's fold over the variants of each period, moving windows the "
-             "missing-strict function of the window abs(t-|w|+1..t), extrapolate satisfies the AR recursion cell by cell on abs with the lags in "
-             "the documented order and leaves the history untouched; for fill_missing the neighbour rule is proved per column (its lifting to "
-             "abs) and for hstack the value equation rest on the correspondence run; trim leaves abs unchanged and establishes "
+             "alignment including numpy's 1-vs-n variant broadcasting, clip/slices/element-wise apply/replace_where are one equation on abs each, "
+             "overlay/underlay by span (also 1-vs-n variants), hstack of two series (variant v < nv1 reads self, else other at v-nv1), row "
+             "statistics (the function's fold over the variants of each period, NaN rules stated), moving windows (the missing-strict "
+             "function of the window abs(t-|w|+1..t)), fill_missing (observed cells kept, a missing cell gets the method's value from the "
+             "closest observed neighbours in the span: constant/next/previous/nearest/linear spelled out on periods) and extrapolate (the "
+             "AR recursion cell by cell with the lags in the documented order, history untouched) are proved on abs as well; "
+             "op_refines_map collects the equation of every op kind; "
+             "trim leaves abs unchanged and establishes "
              "'no all-missing leading/trailing row, all-missing = empty series without start'; well-formedness is preserved by every "
              "operation and lifted to arbitrary op sequences over a pool by induction (reachable_inv). The model is tied to the code on "
              "every run by an op-sequence differential check against irispie (state of the whole pool compared after every op, exact "
